@@ -659,6 +659,10 @@ def query (x : Ctx) (q : String) : Q String := do
       | "nthlast" => .inl (l.drop (arg + 1)).getLast?.toList
       | "nthhint" => .inr 1
       | _ => .inl []
+    if ad = "collectseq" then
+      let f ← qres (seqRes (Iter.iter x.p c bs))
+      let b ← qres (seqRes (Iter.revIter x.p c bs))
+      return s!"{showS x (Seq.extend c [] (f.drop arg))} | {showS x (Seq.extend c [] (b.drop arg))}"
     match kind with
     | "windows" => do
       let l ← qres (seqRes (Iter.windows x.p c bs w))
